@@ -77,8 +77,8 @@ func loadProgram(repo string, specFiles []string) (*Verifier, error) {
 		if f.Blocks == nil {
 			continue
 		}
-		if f.Synthetic != "" && !strings.HasSuffix(f.Name(), "$bound") {
-			continue // wrappers, init
+		if f.Synthetic != "" && !strings.HasSuffix(f.Name(), "$bound") && !(f.Synthetic == "package initializer" && f.Pkg != nil && v.ModPkgs[f.Pkg.Pkg]) {
+			continue // wrappers
 		}
 		key := v.keyOf(f)
 		v.Funcs[key] = f
@@ -150,6 +150,7 @@ func loadProgram(repo string, specFiles []string) (*Verifier, error) {
 		}
 		v.DB.FieldInvs = append(v.DB.FieldInvs, tmp.FieldInvs...)
 		v.DB.NewInvs = append(v.DB.NewInvs, tmp.NewInvs...)
+		v.DB.GlobalInvs = append(v.DB.GlobalInvs, tmp.GlobalInvs...)
 		v.DB.Axioms = append(v.DB.Axioms, tmp.Axioms...)
 		v.DB.NLibEntries += tmp.NLibEntries
 		v.DB.NAxiom += tmp.NAxiom
@@ -196,6 +197,9 @@ func (v *Verifier) contractOf(f *ssa.Function) *Contract {
 // scanGlobals records which package-level variables are assigned outside init.
 func (v *Verifier) scanGlobals() {
 	for _, f := range v.AllFns {
+		if f.Synthetic == "package initializer" {
+			continue
+		}
 		for _, b := range f.Blocks {
 			for _, in := range b.Instrs {
 				if st, ok := in.(*ssa.Store); ok {
